@@ -39,7 +39,8 @@ ASSUMPTIONS = [
 REQUIRED = {'sched.schedules': 500, 'sched.with_switch': 300, 'hook.call_points': 5000, 'hook.iter_points': 50,
             'ownership.contexts_created': 1000, 'free.evaluations': 200, 'evalcache.evaluations': 50,
             'pool.statements': 40, 'reach.runner.call': 5000,
-            'sched.line_schedules': 500, 'sched.line_with_switch': 300, 'hook.line_points': 50000}
+            'sched.line_schedules': 500, 'sched.line_with_switch': 300, 'hook.line_points': 50000,
+            'sched.cold_schedules': 500, 'sched.cold_with_switch': 300}
 
 POOL = c09.POOL + [
     # strings / regex / datetime / math / branching / system: every library module
@@ -100,6 +101,30 @@ class Mon:
     def __init__(self, rec):
         self.rec = rec
         self.eng = yq.engine({'yaql.limitIterators': 5000, 'yaql.memoryQuota': 5000000})
+        self._build_shared()
+        self.lp = None
+        self.cold = False
+        self.baton = None
+        self.call_points = 0
+        self.iter_points = 0
+        self.armed = False
+        self.violations = []
+        self.ctx_owner = {}
+        self.shared_ids = {}
+        c = self.shared
+        while c is not None:
+            self.shared_ids[id(c)] = c
+            c = c.parent
+        self.protected = {}
+        self.patches = hooks.Patches()
+        self._install()
+        self.reach = hooks.Reach()
+        self.reach.watch(self.orig_call, 'runner.call')
+        self.reach.start()
+        self.stmts = {}
+        self.lock = threading.Lock()
+
+    def _build_shared(self):
         self.root = yaql.create_context()
         self.shared = self.root.create_child_context()
         self.shared['hostvar'] = (1, 2, yutils.FrozenDict({'k': 'v'}))
@@ -134,26 +159,27 @@ class Mon:
             nxt = self.eng(text).evaluate(context=self.shared)
             assert isinstance(nxt, yctx.ContextBase), nxt
             self.shared = nxt
-        self.lp = None
-        self.baton = None
-        self.call_points = 0
-        self.iter_points = 0
-        self.armed = False
-        self.violations = []
-        self.ctx_owner = {}
+
+    def renew_shared(self):
+        """a fresh prepared context (fresh function definitions: nothing in it has been called yet)"""
+        self._build_shared()
         self.shared_ids = {}
         c = self.shared
         while c is not None:
             self.shared_ids[id(c)] = c
             c = c.parent
-        self.protected = {}
-        self.patches = hooks.Patches()
-        self._install()
-        self.reach = hooks.Reach()
-        self.reach.watch(self.orig_call, 'runner.call')
-        self.reach.start()
-        self.stmts = {}
-        self.lock = threading.Lock()
+        self.protected_fd = {}
+        self._protect_shared()
+
+    def _protect_shared(self):
+        c = self.shared
+        while c is not None:
+            for fds in getattr(c, '_functions', {}).values():
+                for fd in fds:
+                    self.protected_fd[id(fd)] = fd
+                    for p in fd.parameters.values():
+                        self.protected_fd[id(p)] = p
+            c = c.parent
 
     def _install(self):
         mon = self
@@ -163,6 +189,8 @@ class Mon:
             mon.call_points += 1
             b = mon.baton
             if b is not None:
+                if mon.lp is not None and mon.lp.trace is not None:
+                    mon.lp.trace.append(('call', 0))
                 b.point('call')
             return mon.orig_call(*a, **kw)
         self.patches.set(yrunner, 'call', call)
@@ -195,21 +223,15 @@ class Mon:
 
         def make_setattr(kind, orig):
             def _sa(self_, name, value):
-                if mon.armed and id(self_) in mon.protected:
+                if mon.armed and (id(self_) in mon.protected or (not mon.cold and id(self_) in mon.protected_fd)):
                     mon.violations.append(('shared-object-written', '%s.%s assigned during evaluation' % (type(self_).__name__, name)))
                 orig(self_, name, value)
             return _sa
         self.patches.set(yexpr.Expression, '__setattr__', make_setattr('expression', object.__setattr__))
         for cls in (yspecs.FunctionDefinition, yspecs.ParameterDefinition):
             self.patches.set(cls, '__setattr__', make_setattr(cls.__name__, cls.__setattr__))
-        c = self.shared
-        while c is not None:
-            for fds in getattr(c, '_functions', {}).values():
-                for fd in fds:
-                    self.protected[id(fd)] = fd
-                    for p in fd.parameters.values():
-                        self.protected[id(p)] = p
-            c = c.parent
+        self.protected_fd = {}
+        self._protect_shared()
 
     def close(self):
         self.rec.count('hook.call_points', self.call_points)
@@ -311,6 +333,9 @@ def plan(tier, seed):
     for p in range(4 if not thorough else 12):
         shards.append({'name': 'line-%d' % p, 'kind': 'line', 'count': 700 if not thorough else 6000, 'narrow': p % 2 == 0,
                        'timeout': 3000})
+    for p in range(6 if not thorough else 14):
+        shards.append({'name': 'cold-%d' % p, 'kind': 'cold', 'count': 450 if not thorough else 4000, 'narrow': p % 2 == 0,
+                       'timeout': 3000})
     shards.append({'name': 'free', 'kind': 'free', 'threads': 6, 'iters': 120 if not thorough else 2500, 'timeout': 3000})
     shards.append({'name': 'evalcache', 'kind': 'evalcache', 'threads': 4, 'iters': 60 if not thorough else 600})
     if thorough:
@@ -330,14 +355,29 @@ SHORT = HELPERS + ['$.n + 1', '$.name', '$.items.len()', '$hostvar', '$.doc.a', 
          '$.items.select($ + 1).first()', '$.items.orderBy($).first()', "$.name.toUpper()", '$.doc.set(z, $.n).len()']
 
 
+COLD_POOL = SHORT + ['$.items.distinct().len()', '$.items.sum()', '$.items.toDict($, $ * 2).len()', '$.items.groupBy($ mod 2).len()',
+                     "$.items.select(str($)).join(',')", '$.doc.mergeWith({q => $.n}).len()', '$.doc.set(z, 1).len()',
+                     'generate(0, $ < 4, $ + 1).len()', "$.name.search('.')", '$.items.select($ * 2).where($ > 2).len()',
+                     '$.items.orderBy(-$).first()', '$.items.zip($.items).len()', '$.items.len() + $.items.count()',
+                     "$.name.matches('.*')", '$.items.aggregate($1 + $2, 0)', 'max($.n, 3)', "dict(a => $.n).a", '$.items.any($ > 1)',
+                     "format('{0}', $.n)", '$.items.skip(1).take(2).toList()', '$.items.indexOf($.n)', "'{0}'.format($.n)",
+                     'assert($.n, $ > 0)', 'call(len, [$.items], {})', 'list($.n, 1).len()', 'int($.name.len())',
+                     '$.items.slice(2).len()', 'switch($.n > 3 => 1, true => 2)', 'selectCase($.n > 3)', 'coalesce(null, $.n)']
+
+
 def run_shard(spec, rec):
     mon = Mon(rec)
     try:
         rng = rng_for(spec['seed'], 'c18', spec['name'])
         rec.count('pool.statements', len(POOL) + len(SHORT))
         fp0 = fingerprint(mon)
+        mon.fp_changed = False
         globals()['_' + spec['kind']](spec, mon, rec, rng)
-        if fingerprint(mon) != fp0:
+        if spec['kind'] == 'cold':
+            changed = mon.fp_changed        # compared per schedule: each one has its own prepared context
+        else:
+            changed = fingerprint(mon) != fp0
+        if changed:
             rec.violation('shared-context-changed', 'the fingerprint of the shared prepared context changed during shard %s' % spec['name'],
                           {'kind': 'fingerprint'})
         rec.count('fingerprint.compared')
@@ -463,6 +503,88 @@ def _line(spec, mon, rec, rng):
         rec.count('hook.line_points', mon.lp.count)
         mon.lp.stop()
         mon.lp = None
+
+
+def _cold(spec, mon, rec, rng):
+    """cold-start schedules: every schedule runs in children of a prepared context built just before it, so each
+    function definition, parameter type and context table is used for the first time by the racing threads
+    themselves (what a host sees right after start-up).  The baseline comes from another fresh context.  One
+    preemption is placed uniformly over the statement starts the first thread executes in the modules that bind and
+    resolve calls; the second thread then runs to completion inside that window.  Only results and context writes
+    are judged here: a definition may legitimately fill a cache on first use, as long as nobody observes it half
+    filled."""
+    from yaql.language import contexts, runner, specs, yaqltypes
+    mods = (specs,) if spec.get('narrow') else (specs, yaqltypes, contexts, runner, yutils)
+    mon.lp = hooks.LinePoints(hooks.module_codes(*mods)).start()
+    mon.cold = True
+    solo = {}
+    base_of = {}
+
+    def first_use_points(job):
+        """the points of `job` run alone in a fresh prepared context, and those among them that a second run in the
+        same (now used) context does not pass: statements that only execute on first use"""
+        import collections
+        mon.renew_shared()
+        mon.lp.trace = []
+        run_schedule(mon, [job], sched.ReplayChooser([0] * 10))
+        cold_trace = mon.lp.trace
+        mon.lp.trace = []
+        run_schedule(mon, [job], sched.ReplayChooser([0] * 10))
+        warm = collections.Counter(mon.lp.trace)
+        mon.lp.trace = None
+        cold = collections.Counter(cold_trace)
+        extra = {k_ for k_ in cold if cold[k_] > warm.get(k_, 0)}
+        return len(cold_trace), [j for j, k_ in enumerate(cold_trace) if k_ in extra]
+    try:
+        for i in range(spec['count']):
+            k = 2
+            if rng.random() < 0.7:
+                t = rng.choice(COLD_POOL)
+                jobs = [(t, rng.randrange(4), False), (t, rng.randrange(4), False)]      # the same functions, cold
+            else:
+                fam = rng.choice(LINE_FAMILIES + [SHORT])
+                jobs = [(rng.choice(fam), rng.randrange(4), False) for _ in range(k)]
+            for j in jobs:
+                if j not in base_of:
+                    mon.renew_shared()
+                    base_of[j] = mon.evaluate(*j)       # alone, in its own fresh prepared context
+            base = [base_of[j] for j in jobs]
+            key = jobs[0][:2]
+            if key not in solo:
+                solo[key] = first_use_points(jobs[0])
+                rec.count('cold.first_use_only_points', len(solo[key][1]))
+                rec.count('cold.points_traced', solo[key][0])
+            mon.renew_shared()
+            npoints, first_only = solo[key]
+            if first_only and rng.random() < 0.7:
+                at = max(1, rng.choice(first_only) + rng.choice((0, 0, 1)))
+                rec.count('sched.cold_directed_at_first_use_statement')
+            else:
+                at = rng.randrange(1, max(npoints, 2))
+            ch = sched.ReplayChooser([0] * (at + 1) + [1] * 1000000)
+            desc = {'mode': 'replay', 'seq': None, 'preempt_at': at, 'then': 1, 'line': True, 'cold': True,
+                    'narrow': bool(spec.get('narrow'))}
+            fp = fingerprint(mon)
+            res, b = run_schedule(mon, jobs, ch)
+            if fingerprint(mon) != fp:
+                mon.fp_changed = True
+            rec.count('fingerprint.compared')
+            rec.count('sched.schedules')
+            rec.count('sched.cold_schedules')
+            if b.switches:
+                rec.count('sched.with_switch')
+                rec.count('sched.cold_with_switch')
+            rec.case(('cold', jobs[0][0], jobs[1][0], jobs[0][1], jobs[1][1], at), nontrivial=b.switches > 0)
+            judge(mon, rec, jobs, base, res, b, desc)
+            if i % 200 == 0:
+                rec.sample({'mode': 'cold-start line-level', 'threads': [j[0] for j in jobs], 'scheduling_points': b.points,
+                            'preempt_at': at, 'switches': b.switches})
+    finally:
+        mon.cold = False
+        rec.count('hook.line_points', mon.lp.count)
+        mon.lp.stop()
+        mon.lp = None
+        mon.renew_shared()
 
 
 def _threads(mon, rec, spec, rng, worker_eval, label, count_key):
@@ -615,14 +737,21 @@ def replay(data, rec):
             print('free-running / cache modes are statistical; re-run the check')
             return
         jobs = [tuple(j) for j in data['jobs']]
-        base = baseline(mon, jobs)
         sc = data['schedule']
+        if sc.get('cold'):
+            mon.renew_shared()
+            mon.cold = True
+        base = baseline(mon, jobs)
+        if sc.get('cold'):
+            mon.renew_shared()
         if sc.get('preempt_at') is not None:
             sc['seq'] = [0] * (sc['preempt_at'] + 1) + [sc['then']] * 1000000
         ch = sched.DFSChooser(sc['prefix']) if sc['mode'] == 'dfs' else sched.ReplayChooser(sc['seq'])
         if sc.get('line'):
             from yaql.language import contexts, expressions, runner, specs, yaqltypes
             mods = (yaqltypes, specs, yutils) if sc.get('narrow') else (yaqltypes, specs, runner, contexts, expressions, yutils)
+            if sc.get('cold'):
+                mods = (specs,) if sc.get('narrow') else (specs, yaqltypes, contexts, runner, yutils)
             mon.lp = hooks.LinePoints(hooks.module_codes(*mods)).start()
         try:
             res, b = run_schedule(mon, jobs, ch)
